@@ -239,7 +239,7 @@ func (p *c09) realTimer(c *verifsim.Chooser, st *Stats, render bool) *Outcome {
 	o := &Outcome{}
 	s := p.shapes[c.Intn(len(p.shapes))]
 	opt := c.Intn(2) == 0
-	currentDesc.Store("real timer " + s.Family)
+	setDesc("real timer " + s.Family)
 	o.Digest.Str("real-timer" + s.Text)
 	var last time.Duration
 	for attempt := 0; attempt < 2; attempt++ {
@@ -295,7 +295,7 @@ func (p *c09) driverTimeout(c *verifsim.Chooser, st *Stats, render bool) *Outcom
 		args = append(args, "-no-optimizer")
 	}
 	args = append(args, "script.in")
-	currentDesc.Store("driver -timeout " + s.Family)
+	setDesc("driver -timeout " + s.Family)
 	o.Digest.Str("drv" + text + strings.Join(args, " "))
 	sc := &scenario{Args: args, Files: map[string]*verifsim.SimFile{"script.in": {Data: []byte(text)}}, HardCap: 400000}
 	res := p.drv.spawn(p.drv.sim, sc, nil)
@@ -335,7 +335,7 @@ func (p *c09) heavy(c *verifsim.Chooser, st *Stats, render bool) *Outcome {
 	T := c09HeavyT[c.Intn(len(c09HeavyT))]
 	text := b.text + op.text + " return 1;"
 	family := "heavy-instruction " + b.name + " " + op.name
-	currentDesc.Store(family)
+	setDesc(family)
 	o.Digest.Str(text)
 	o.Digest.U64(uint64(T))
 
@@ -489,7 +489,7 @@ func (p *c09) Run(c *verifsim.Chooser, st *Stats, render bool) *Outcome {
 			family = "random/in-foreach"
 		}
 	}
-	currentDesc.Store(family)
+	setDesc(family)
 	opt := c.Intn(2) == 0
 	useRun := c.Intn(2) == 1
 	// what the context says about its deadline: 0 nothing, 1 an hour away,
